@@ -342,7 +342,8 @@ def _plant(world, root, op):
             p = out / _M.out_dir_rel(r[0], r[1])
             if not p.exists():
                 p.mkdir(parents=True, exist_ok=True)
-                (p / "planted.txt").write_bytes(b"planted before restore")
+                if not item.get("empty"):
+                    (p / "planted.txt").write_bytes(b"planted before restore")
                 world.count("fault.archive_preexisting_directory")
             continue
         p = out / item["path"] if not item.get("outside") else root.parent / item["path"]
